@@ -42,10 +42,10 @@ pub fn encode_case(acc: &mut Acc, s: &dyn Subject, v: &Val) -> Option<(Box<dyn A
     }
 }
 
-/// the reference encoding of `v` in which some tuple positions (map entries included) come from a writer one to three
+/// the reference encoding of `v` in which some tuple and enum positions (map entries included) come from a writer one to three
 /// evolution steps ahead: version byte n, a header, chunk 0 with the elements, then chunks this reader knows nothing about
 fn newer_tuple_encoding(ctx: &Ctx, tag: u64, id: &str, idx: u64, ty: &Ty, v: &Val) -> Option<Vec<u8>> {
-    if !ty.any(&mut |t| matches!(t, Ty::Tuple(_) | Ty::Map(_, _)), &mut Vec::new()) {
+    if !ty.any(&mut |t| matches!(t, Ty::Tuple(_) | Ty::Map(_, _) | Ty::Enum(_)), &mut Vec::new()) {
         return None;
     }
     let mut r1 = ctx.rng_for(tag ^ 0x7E, id, idx);
